@@ -103,6 +103,20 @@ class Ctx:
                          {"function": fn.name, "file": fn.file, "accept_site": fn.loc(v.pt), "predicate": label, "required_outcome": want,
                           "path": s.render_path(v.path), "why": v.msg})
 
+    def on_all_paths(self, rule, key, fn, guard_pts, what):
+        """Every path from entry to a normal exit passes one of guard_pts."""
+        if not guard_pts:
+            self.bad(rule, key, "%s: statement not found in %s" % (what, fn.name), {"function": fn.name})
+            return False
+        s = Search(fn, BeforeMonitor((), guard_pts, check_exit=True))
+        v = s.run(False)
+        if v is None:
+            self.ok(rule, key, what + " on every path (%d site(s), %d states)" % (len(guard_pts), s.states),
+                    sample={"function": fn.name, "sites": [fn.loc(p) for p in sorted(guard_pts)][:4], "rule": what})
+            return True
+        self.bad(rule, key, "%s: a path through %s skips it" % (what, fn.name), {"function": fn.name, "path": s.render_path(v.path)})
+        return False
+
     def before(self, rule, key, fn, use_pts, guard_pts, what):
         if not use_pts:
             self.bad(rule, key + ":no-use-site", "no use site found for: " + what)
